@@ -279,17 +279,23 @@ def body_formats(case, rec):
         if (d / "in2" / "conv1.tpf").read_bytes() != (d / "in2" / "conv2.tpf").read_bytes():
             raise Violation("asm-format run twice on the same AGP gave different TPF files")
         shutil.copy(d / "in2" / "conv1.tpf", as_tpf)
-        for tag, inp in (("agp", as_agp), ("tpf", as_tpf)):
+        # the AGP as an earlier curation round would have written it: some contigs carry the tag `Cut`
+        as_agp_cut = d / "in3" / "asm.agp"
+        as_agp_cut.parent.mkdir()
+        lines_ = as_agp.read_text().split("\n")
+        as_agp_cut.write_text("\n".join(l + "\tCut" if l and not l.startswith("#") and l.split("\t")[4:5] == ["W"] and k % 3 == 0 else l for k, l in enumerate(lines_)))
+        for tag, inp in (("agp", as_agp), ("tpf", as_tpf), ("agp_cut", as_agp_cut)):
             code, _ = run_in(d, inp, mp, tag, prefix, "agp")
             if code != 0:
                 raise Violation(f"run with the input supplied as {tag.upper()} failed (exit {code}); FASTA input succeeded")
             results[tag] = d / f"out_{tag}"
 
         def parsed(outd):
-            return {f.name: ref.read_agp(f.read_text())[1] for f in sorted(outd.iterdir()) if f.name.endswith(".agp")}
+            return {f.name: [[n, [r[:5] if r[0] == "F" else r for r in rows]] for n, rows in ref.read_agp(f.read_text())[1]]
+                    for f in sorted(outd.iterdir()) if f.name.endswith(".agp")}
 
         base = parsed(results["fasta"])
-        for tag in ("agp", "tpf"):
+        for tag in ("agp", "tpf", "agp_cut"):
             got = parsed(results[tag])
             if sorted(got) != sorted(base):
                 raise Violation(f"input as {tag.upper()}: assembly files {sorted(got)} vs {sorted(base)} from FASTA input")
